@@ -10,6 +10,7 @@ os.makedirs(os.path.join(V, "checks", "theorems"), exist_ok=True)
 for f in sorted(glob.glob(os.path.join(V, "checks", "c??.py"))):
     sp = importlib.util.spec_from_file_location("m", f); m = importlib.util.module_from_spec(sp); sp.loader.exec_module(m)
     spec = m.SPEC
+    subprocess.run(["lake", "build"] + spec["lean_props"], cwd=os.path.join(V, "lean"), stdout=subprocess.DEVNULL, stderr=subprocess.DEVNULL)
     out = subprocess.run(["lake", "env", "lean", "--run", "Audit.lean"] + spec["lean_props"], cwd=os.path.join(V, "lean"),
                          stdout=subprocess.PIPE, stderr=subprocess.STDOUT).stdout.decode()
     names = [l.split(" ")[2] for l in out.splitlines() if l.startswith("THEOREM ")]
